@@ -1,7 +1,7 @@
 (* C15 - ast.Node behaves like a plain ordered tree; lazy loading is unobservable.
    Only statements, closed by `exact`, with Print Assumptions beneath each. *)
 From Coq Require Import List Arith Bool NArith.
-From SV.Ast Require Import Linked Tree Node Refute LinkedProofs IndexProofs NodeRefine ArrayRefine.
+From SV.Ast Require Import Linked Tree Node Refute LinkedProofs IndexProofs NodeRefine ArrayRefine RootRefine.
 Import ListNotations.
 
 (* ---- the chunked child storage (head [16] + tail chunks + size) is a plain list ---- *)
@@ -122,3 +122,21 @@ Print Assumptions C15_node_emptykey_unset_refuted.
 Theorem C15_node_move_oor_holes_refuted : model_obs (RRaw, mv_doc) mv_ops <> spec_obs (RRaw, mv_doc) mv_ops.
 Proof. exact move_oor_holes_witness. Qed.
 Print Assumptions C15_node_move_oor_holes_refuted.
+
+(* ---- node_refines_tree (PARTIAL): induction over the op list ----
+   For every hash function, every document, every initial representation of it (raw, raw with lock, lazily parsed, built with the
+   constructors) and EVERY finite sequence of root-level Look / Load / LoadAll / Add operations, every observation of the model
+   equals the plain tree's: which parts happen to be parsed, and when, is not observable.  The fragment is what is proved;
+   the remaining operations (Get/Index below the root, Len, Set, SetByIndex, Unset, UnsetByIndex, Pop, Move, SortKeys, ForEach,
+   MarshalJSON, Interface) are covered by the three-way replay of checks/C15.py and by the layer theorems above, and three of
+   them are refuted as stated (Len on a lazy node, key "" with a soft-deleted pair, out-of-range Move with holes). *)
+Theorem C15_node_refines_tree_partial :
+  forall (hash : bytes -> N) (v : value) (ops : list step),
+    forallb frag ops = true ->
+    fst (run hash ops (mk_value hash v)) = fst (spec_run ops (snd v)).
+Proof. exact node_refines_tree_partial_from_doc. Qed.
+Print Assumptions C15_node_refines_tree_partial.
+
+Example C15_node_refines_tree_partial_nonvacuous :
+  forallb frag [([], OpAdd (RLazy, TArr [TNull])); ([], OpLook); ([], OpLoad); ([], OpAdd (RRaw, TTrue)); ([], OpLook)] = true.
+Proof. reflexivity. Qed.
